@@ -63,8 +63,9 @@ ConsistentClause(N, sel, want, stopped, p) ==
     ELSE IF p.hasy /\ \E i \in 1..p.nsel : sel[i] \notin RangeOf(p.ysel[i]) THEN "stored-y-not-targets-sliced-at-selection"
     ELSE IF Len(p.support) # N THEN "support-mask-has-wrong-length"
     ELSE IF {j \in 1..N : p.support[j]} # RangeOf(sel) THEN "support-mask-differs-from-selection"
-    ELSE IF p.sorted # SortSet(RangeOf(sel)) THEN "get_support(indices)-not-sorted-selection"
-    ELSE IF p.ordered # sel THEN "get_support(ordered)-not-selection-order"
+    \* views not observed by the recorder (source-hook traces) are marked by p.views = FALSE
+    ELSE IF p.views /\ p.sorted # SortSet(RangeOf(sel)) THEN "get_support(indices)-not-sorted-selection"
+    ELSE IF p.views /\ p.ordered # sel THEN "get_support(ordered)-not-selection-order"
     ELSE IF p.hastr /\ Len(p.tcols) # p.nsel THEN "transform-has-wrong-width"
     ELSE IF p.hastr /\ \E i \in 1..p.nsel : SortSet(RangeOf(sel))[i] \notin RangeOf(p.tcols[i]) THEN "transform-not-masked-columns"
     ELSE "ok"
